@@ -419,6 +419,11 @@ func genC13(r *rng, n int) {
 	// main.go seeds the generator with seed*gamma: the stream of seed k+1 is the stream of seed k shifted by one draw, so the
 	// forks of consecutive seeds would coincide.  Re-key from the first draw so that different seeds give unrelated streams.
 	r = &rng{s: r.next()*0xbf58476d1ce4e5b9 + 0x2545f4914f6cdd1d}
+	// 80 % of the budget: Thrift (1301/1302); 20 %: Protobuf (1311/1312, c13_proto.go)
+	nProto := n / 5
+	n -= nProto
+	rp := r.fork()
+	defer genC13Proto(rp, nProto)
 	made := 0
 	for made < n {
 		g := newGen13(r.fork())
